@@ -103,7 +103,8 @@ type Cmd struct {
 	Env       []string // extra KEY=VALUE entries
 	Timeout   time.Duration
 	Strace    string // if non-empty, path of the strace log to write
-	// Inject makes every system call of kind InjectCall ("read" | "write") on the file InjectPath fail with
+	// Inject makes every system call of kind InjectCall ("read" | "write" | a comma-separated list) on the file InjectPath
+	// (on any file when InjectPath is empty) fail with
 	// InjectErr (e.g. "EIO", "ENOSPC"); the strace log (Strace must be set) then carries "(INJECTED)" lines.
 	InjectPath, InjectCall, InjectErr string
 	retries                           int
@@ -208,8 +209,12 @@ func Run(c Cmd) *Result {
 	ctx, cancel := context.WithTimeout(context.Background(), to+5*time.Second)
 	defer cancel()
 	var cmd *exec.Cmd
-	if c.Strace != "" && c.InjectPath != "" {
-		args := []string{"-f", "-qq", "-e", "signal=none", "-o", c.Strace, "-P", c.InjectPath, "-e", "trace=" + c.InjectCall, "-e", "inject=" + c.InjectCall + ":error=" + c.InjectErr, c.Bin}
+	if c.Strace != "" && c.InjectCall != "" {
+		args := []string{"-f", "-qq", "-e", "signal=none", "-o", c.Strace}
+		if c.InjectPath != "" {
+			args = append(args, "-P", c.InjectPath)
+		}
+		args = append(args, "-e", "trace="+c.InjectCall, "-e", "inject="+c.InjectCall+":error="+c.InjectErr, c.Bin)
 		args = append(args, c.Args...)
 		cmd = exec.CommandContext(ctx, "strace", args...)
 	} else if c.Strace != "" {
